@@ -8,7 +8,8 @@ from lqv.models import storemodel as SM
 
 
 class Built:
-    def __init__(self, store, leaves, prefix="", cleanup=None, pinned=()):
+    def __init__(self, store, leaves, prefix="", cleanup=None, pinned=(), extra_keys=()):
+        self.extra_keys = list(extra_keys)   # keys of the universe that are NOT under the prefix (e.g. default-store siblings)
         self.store = store          # the object under test
         self.leaves = leaves        # raw leaf stores (MemoryStore / FileStore) for snapshots
         self.prefix = prefix        # universe keys are re-prefixed with this
@@ -72,7 +73,7 @@ def leaf(kind, scratch, cleanup):
 C07_CONFIGS = [
     "memory", "file", "proxy(memory)", "proxy(file)", "indexer(memory)", "indexer(file)",
     "overlay(memory|empty)", "overlay(file|empty)", "mountdefault(memory)", "mountdefault(file)",
-    "mounted(memory)", "mounted(file)", "global(memory)", "global(file)",
+    "mounted(memory)", "mounted(file)", "global(memory)", "global(file)", "mounted2(memory)", "mounted2(file)",
 ]
 
 
@@ -105,6 +106,14 @@ def build(cfg, scratch):
         m = MountPointStore(default_store=d)
         m.mount("m", s)
         return Built(m, [s, d], prefix="m/", cleanup=cleanup, pinned=["m"])
+    if name == "mounted2":
+        # two-component mount point beside default-store entries in the same ancestor directory
+        s = leaf(arg, scratch, cleanup)
+        d = MemoryStore()
+        m = MountPointStore(default_store=d)
+        m.mount("data/m", s)
+        return Built(m, [s, d], prefix="data/m/", cleanup=cleanup, pinned=["data/m", "data"],
+                     extra_keys=["data/local.txt", "data/x/y.txt", "data/mx.txt", "top.txt"])
     if name == "global":
         s = leaf(arg, scratch, cleanup)
         m = MountPointStore().with_indexer()
